@@ -324,10 +324,53 @@ def x7(run: Run, prog: Program):
                     for x in ast.walk(fnode):
                         if not isinstance(x, ast.Call):
                             continue
-                        if ast.unparse(x.func) in ("np.argsort", "numpy.argsort",
-                                                   "np.searchsorted", "np.lexsort") \
+                        fn_ = ast.unparse(x.func)
+                        if fn_ in ("np.searchsorted", "np.lexsort") \
                                 and x.args and name in ast.unparse(x.args[0]):
                             return True
+                        if fn_ in ("np.argsort", "numpy.argsort") and x.args and \
+                                name in ast.unparse(x.args[0]):
+                            # rank of every node in the sorted list: argsort of
+                            # argsort.  A single argsort is the inverse of that
+                            # permutation - right only where it scatters
+                            # (`out[order] = sorted_result`), wrong where it
+                            # gathers (`sorted_result[order]`)
+                            inner = x.args[0]
+                            if isinstance(inner, ast.Call) and \
+                                    ast.unparse(inner.func) in ("np.argsort", "numpy.argsort"):
+                                return True
+                            nested_in = any(
+                                isinstance(y, ast.Call) and y is not x and
+                                ast.unparse(y.func) in ("np.argsort", "numpy.argsort")
+                                and y.args and any(z is x for z in ast.walk(y.args[0]))
+                                for y in ast.walk(fnode))
+                            if nested_in:
+                                return True
+                            holder = None
+                            for st_ in ast.walk(fnode):
+                                if isinstance(st_, ast.Assign) and st_.value is x and \
+                                        isinstance(st_.targets[0], ast.Name):
+                                    holder = st_.targets[0].id
+                            if holder is None:
+                                continue
+                            gathers = scatters = 0
+                            for sub in ast.walk(fnode):
+                                if isinstance(sub, ast.Subscript) and any(
+                                        isinstance(z, ast.Name) and z.id == holder
+                                        for z in ast.walk(sub.slice)):
+                                    if isinstance(sub.ctx, ast.Store):
+                                        scatters += 1
+                                    else:
+                                        gathers += 1
+                            if scatters and not gathers:
+                                return True
+                            # second argsort applied to the holder later on
+                            if any(isinstance(y, ast.Call) and
+                                   ast.unparse(y.func) in ("np.argsort", "numpy.argsort")
+                                   and y.args and isinstance(y.args[0], ast.Name)
+                                   and y.args[0].id == holder for y in ast.walk(fnode)):
+                                return True
+                            continue
                         # a helper that is handed the list and computes the order
                         if depth < 2 and any(isinstance(a_, ast.Name) and a_.id == name
                                              for a_ in x.args):
